@@ -1207,9 +1207,50 @@ def gen_hier_case(rng: random.Random):
             sub["fields"].append(new)
         if rng.random() < 0.75:
             target = 0
+    if len(classes) > 1 and rng.random() < 0.15:
+        # a subclass that re-declares an ALIASED inherited field without its old alias_from, or drops it (`f = ...`): what
+        # the bases' alias tables said about that field must not survive in the subclass.  The subclass is parsed, and the
+        # input (below) uses the old alias as a key.
+        t = rng.choice(base_fields)
+        if not t.get("alias_from"):
+            t["alias_from"] = [t["attname"] + "_old"]
+        sub = classes[1]
+        sub["fields"] = [f for f in sub["fields"] if f["attname"] != t["attname"]]
+        t_ci = t.get("ci") if t.get("ci") is not None else bool((bopts or {}).get("case_insensitive"))
+        t_key = fkey(dict(desugar(classes[:1])[0]["fields"][base_fields.index(t)], ci=t_ci))   # alias generators written out
+        if t_key == t["attname"] and rng.random() < 0.4:
+            sub["drops"] = [t["attname"]]
+        else:
+            sub.pop("drops", None) if (sub.get("drops") or []) == [t["attname"]] else None
+            new = dict(t, alias_from=[], deps=[])
+            if rng.random() < 0.5:
+                new["default"] = {"v": rng.choice([5, "5", 0]), "factory": False}
+                new["required"] = None
+            if field_ok(new):
+                sub["fields"].append(new)
+        if rng.random() < 0.5 and (sub.get("opts") is not None):
+            sub["opts"]["data_first_search"] = rng.choice([True, None])
+        target = rng.choice([1, 1, len(classes) - 1]) if all(
+            1 in (c.get("bases") or []) or i <= 1 for i, c in enumerate(classes)) else 1
     cdt = flatten(classes, target)
     runtime = gen_opts(rng, True) if rng.random() < 0.4 else None
-    return {"classes": classes, "target": target, "runtime": runtime, "data": gen_data(rng, cdt, cdt["opts"] or {})}
+    data = gen_data(rng, cdt, cdt["opts"] or {})
+    # keys an ANCESTOR accepted for a field that this class re-declares differently or no longer has
+    accepted = set()
+    for fd in cdt["fields"]:
+        f = derive_field(fd, (cdt["opts"] or {}).get("case_insensitive"))
+        accepted.update(f["acc"] + [f["name"], f["attname"]])
+    stale = []
+    for c in desugar(classes):
+        for fd in c["fields"]:
+            for k in [fd["attname"], fd.get("alias")] + list(fd.get("alias_from") or []):
+                if k and k not in accepted and k.lower() not in accepted and k not in stale:
+                    stale.append(k)
+    given = {k for k, _ in data}
+    for k in stale:
+        if k not in given and rng.random() < 0.5:
+            data.insert(rng.randrange(len(data) + 1), [k, rng.choice([1, "1", "x"])])
+    return {"classes": classes, "target": target, "runtime": runtime, "data": data}
 
 
 def gen_func_case(rng: random.Random):
